@@ -7,6 +7,12 @@ stream of TeX().input(s).itertokens() is compared as (kind, text) pairs; the
 public Tokenizer.state is sampled after every token (state transitions seen go
 into the evidence); termination is decided by a bound on backward jumps inside
 Tokenizer.iterchars/__iter__ (logical steps, not wall-clock).
+
+Second stage ("midstream"): the driver pulls tokens one at a time and changes
+category codes between two pulls (what \\catcode, \\makeatletter, \\verb and
+verbatim do while a line is being read); the reference is the incremental
+lexer, which looks every character up at the moment it is read, so look-ahead
+that was pushed back must be re-read under the categories then in force.
 """
 import string, re
 from .. import common
@@ -24,11 +30,11 @@ ASSUMPTIONS = ['reference lexer pvmon/reftex/lexer.py (TeXbook ch. 7-8; the phys
                'normal form NF-9 of DESIGN.md: inputs the reference flags as outside it are skipped and counted, never judged',
                'adjacent \\par tokens are compared collapsed']
 DECIDING_REACH = ['Tokenizer.__iter__', 'Tokenizer.iterchars', 'Context.whichCode']
-DECIDING_COUNTERS = {'tokens_compared': 1000}
+DECIDING_COUNTERS = {'tokens_compared': 1000, 'midstream_tokens_compared': 500, 'midstream_changes_applied': 100}
 
 
 def budget(tier):
-    return {'n': 20000 if tier == 'quick' else 300000, 'case_timeout': 20}
+    return {'n': 20000 if tier == 'quick' else 300000, 'n_mid': 6000 if tier == 'quick' else 120000, 'case_timeout': 20}
 
 
 _jc = None
@@ -138,6 +144,39 @@ def cases(seed, tier, shard, nshards):
             # TeX strips the trailing blanks of a line physically (NF-9)
             strings = [re.sub(r'[ \t]+(\n|$)', r'\1', s) for s in strings]
         yield {'table': spec, 'strings': strings}
+    for i in common.sharded(budget(tier)['n_mid'], shard, nshards):
+        r = common.rng_for(seed, PROP, i, 'mid')
+        yield gen_midstream(r, maxlen)
+
+
+MID_CODES = [0, 1, 2, 3, 4, 6, 8, 9, 10, 11, 12, 13, 14, 15, 11, 12, 12, 11, 10, 14]
+
+
+def gen_midstream(r, maxlen):
+    """string without ^ (no ^^ notation), without blanks at line ends, without CR; 1-4 category changes, each applied after the k-th token has been
+    delivered; never category 5/7 and never on the newline (NF-9)"""
+    # bases keep the newline at category 5 (the known finding about re-categorised newlines belongs to the first stage)
+    allother = [[c, 12] for c in SPECIALS if c != '^']
+    base = r.choice([{'base': 'default', 'assign': []}, {'base': 'default', 'assign': []}, {'base': 'default', 'assign': [['@', 11]]}, {'base': 'default', 'assign': allother},
+                     {'base': 'default', 'assign': [a for a in allother if a[0] not in '\\{}']}])
+    s = ''
+    target = r.choice([3, 6, 12, 25, maxlen])
+    while len(s) < target:
+        f = fragment(r)
+        if '^' in f or '\r' in f:
+            continue
+        s += f
+    s = s[:maxlen + 8]
+    s = re.sub(r'[ \t\f]+(\n|$)', r'\1', s)
+    s = re.sub(r'\\(\n|$)', r'\1', s)          # no escape character directly before the end of a line
+    s = re.sub(r'\n\n+', '\n', s).lstrip('\n')  # no empty lines: the two sides may deliver runs of \par differently and the schedule counts tokens
+    chars = sorted(set(s) - {'\n', '^'}) or ['a']
+    sched = []
+    for _ in range(r.randint(1, 4)):
+        ch = r.choice(chars) if r.random() < 0.8 else r.choice(SPECIALS.replace('^', '') + '@ ' + LETTERS)
+        sched.append([r.randint(0, max(1, len(s) // 2)), ch, r.choice(MID_CODES)])
+    sched.sort(key=lambda x: x[0])
+    return {'kind': 'midstream', 'table': base, 'string': s, 'schedule': sched}
 
 
 # ---------------------------------------------------------------------------
@@ -165,9 +204,90 @@ def conv(tok):
     return (tok.catcode, str(tok))
 
 
+def run_midstream(case, st):
+    from plasTeX.TeX import TeX
+    tex = TeX()
+    ctx = tex.ownerDocument.context
+    spec, s = case['table'], case['string']
+    if spec['base'] == 'verbatim':
+        ctx.setVerbatimCatcodes()
+    for ch, code in spec['assign']:
+        ctx.catcode(ch, code)
+    table = ref_table(spec)
+    ref = L.IncLexer(s, table.cat)
+    sched = list(case['schedule'])
+    _jc.reset(64 * (len(s) + 2) + 64)
+    exp, got = [], []
+    applied = 0
+    try:
+        tex.input(s)
+        it = tex.itertokens()
+        k = 0
+        done_r = done_g = False
+        while not (done_r and done_g):
+            while sched and sched[0][0] <= k:
+                _, ch, code = sched.pop(0)
+                ctx.catcode(ch, code)
+                if code == 12:
+                    table.pop(ch, None)
+                else:
+                    table[ch] = code
+                if not (done_r and done_g):
+                    applied += 1
+                st.feature('midstream-change', 'to-%d' % code)
+            if not done_r:
+                t = ref.next()
+                if t is None:
+                    done_r = True
+                else:
+                    exp.append(t)
+            if not done_g:
+                try:
+                    got.append(conv(next(it)))
+                except StopIteration:
+                    done_g = True
+            k += 1
+    except StepBound as e:
+        _jc.reset(1 << 60)
+        st.violation('midstream/no-termination', case, 'tokenizing %r with changes %r: %s' % (s, case['schedule'], e))
+        return {'nontrivial': True}
+    except common.CaseTimeout:
+        raise
+    except Exception as e:
+        _jc.reset(1 << 60)
+        import traceback
+        st.violation('midstream/raises-' + type(e).__name__, case, 'tokenizing %r with changes %r raised %s' % (s, case['schedule'], traceback.format_exc()[-500:]))
+        return {'nontrivial': True}
+    _jc.reset(1 << 60)
+    if ('cs', '\n') in exp or ('cs', '') in exp:
+        # a change of category made an escape character stand directly before the end of a line (NF-9, as in the first stage)
+        st.outcomes['precondition_skip'] += 1
+        st.counters['nf9_skip:escape-before-eol'] += 1
+        return {}
+    e2, g2 = L.collapse_pars(exp), L.collapse_pars(got)
+    st.counters['midstream_tokens_compared'] += len(g2)
+    st.counters['midstream_changes_applied'] += applied
+    if e2 != g2:
+        k = 0
+        while k < min(len(e2), len(g2)) and e2[k] == g2[k]:
+            k += 1
+        st.violation(classify_mid(case, e2, g2, k), case, 'string %r base %r changes (after token k: char, code) %r: first difference at token %d: expected %r..., got %r...'
+                     % (s, spec, case['schedule'], k, e2[k:k + 4], g2[k:k + 4]))
+    return {'nontrivial': len(g2) >= 3 and applied >= 1, 'sample': {'string': s, 'schedule': case['schedule']}}
+
+
+def classify_mid(case, exp, got, k):
+    prev = exp[k - 1] if 0 < k <= len(exp) else None
+    if prev and prev[0] == 'cs' and len(prev[1]) >= 1 and prev[1].isalpha():
+        return 'midstream/after-control-word'
+    return 'midstream/stream-differs'
+
+
 def run(case, st):
     from plasTeX.TeX import TeX
     from plasTeX.Tokenizer import Token, Space, Tokenizer
+    if case.get('kind') == 'midstream':
+        return run_midstream(case, st)
     tex = TeX()
     ctx = tex.ownerDocument.context
     spec = case['table']
